@@ -50,9 +50,13 @@ def programs(tier, rnd: random.Random):
               "{ JUMP(PsV); }", "{ HEX_REG_ALIAS_LR = HEX_REG_ALIAS_PC + 4; }", "{ RdV = P0; P0 = 1; }", "{ P0 = 1; RdV = P0; }"]
     # the PC alias is read-only in the property ("reads the packet address"); writing it is outside C07
     progs = [p for p in progs if "HEX_REG_ALIAS_PC =" not in p]
+    progs += [f"{{ RddV = HEX_REG_ALIAS_{a}{n} + RsV; }}" for a in ALIASES for n in ("", "_NEW")]
     if tier == "quick":
         keep = [p for i, p in enumerate(progs) if i % 2 == rnd.randrange(2)]
-        return keep + [p for p in progs if "JUMP" in p or "ALIAS_PC" in p]
+        # every alias in every access form in every run (21 x 5 programs: a table keyed on the spelling is wrong for single entries only),
+        # widened where the width of the alias matters
+        wide = [f"{{ RddV = HEX_REG_ALIAS_{a}{n} + RsV; }}" for a in ALIASES for n in ("", "_NEW")]
+        return list(dict.fromkeys(keep + [p for p in progs if "JUMP" in p or "ALIAS_" in p] + wide))
     return progs
 
 
